@@ -1,1 +1,3 @@
 import FggsProofs.Props.C08
+import FggsProofs.Props.C19
+import FggsProofs.Props.C20
